@@ -38,7 +38,7 @@ def run(ctx, rep):
     # R09.1
     bad = [v for v in R['violations'] if v['oblig'] == 'R09.1']
     for v in bad:
-        rep.bad('R09.1', 'compiler::Compiler::' + v['method'], v['construct'], v['text'], 'src/compiler.rs')
+        rep.bad('R09.1', 'compiler::Compiler::' + v['method'], v['construct'], v['text'], 'src/compiler.rs', key=v['kc'])
     npaths = 0
     seen = set()
     for a in R['arms']:
@@ -68,7 +68,7 @@ def run(ctx, rep):
     rep.rule('R09.6', 'every node of a statement / argument / element list is compiled (names in all of them are resolved)')
     b6 = [v for v in R['violations'] if v['oblig'] == 'R09.6']
     for v in b6:
-        rep.bad('R09.6', 'compiler::Compiler::' + v['method'], v['construct'], v['text'], 'src/compiler.rs')
+        rep.bad('R09.6', 'compiler::Compiler::' + v['method'], v['construct'], v['text'], 'src/compiler.rs', key=v['kc'])
     if not b6:
         rep.good('R09.6', 'compiler::Compiler', 'loops over syntax-tree lists', 'no loop over a list of syntax-tree nodes has an early exit other than an error', 'src/compiler.rs')
     # R09.2 lookup direction
@@ -133,7 +133,7 @@ def run(ctx, rep):
     # R09.4 use sites
     provbad = [v for v in R['violations'] if v['oblig'] in ('O8', 'O8-scope') and 'symbol' in v['text']]
     for v in provbad:
-        rep.bad('R09.4', 'compiler::Compiler::' + v['method'], v['construct'], v['text'], 'src/compiler.rs')
+        rep.bad('R09.4', 'compiler::Compiler::' + v['method'], v['construct'], v['text'], 'src/compiler.rs', key=v['kc'])
     unresolved_ok = [a for a in R['arms'] if 'unresolved' in a['trace'] and a['method'] in ('compile_expression', 'compile_statement')]
     # an ok-exit whose trace contains an unresolved name must have gone through another, successful resolution of the same name
     # (the fused helper's fallback); what matters: no path emits a slot operand without a resolved symbol (O8) and
